@@ -16,6 +16,7 @@ import (
 	"os/exec"
 	"reflect"
 	"sort"
+	"strconv"
 	"strings"
 	"sync"
 	"sync/atomic"
@@ -75,6 +76,13 @@ func newWsBackend() *wsBackend {
 	up := websocket.Upgrader{CheckOrigin: func(*http.Request) bool { return true }}
 	b.srv = httptest.NewServer(http.HandlerFunc(func(w http.ResponseWriter, r *http.Request) {
 		label := r.URL.Query().Get("s")
+		if strings.HasPrefix(r.URL.Path, "/redir/") {
+			// an open-redirect endpoint of the backend: answers (also a websocket handshake) with a redirect
+			code, _ := strconv.Atoi(strings.TrimPrefix(r.URL.Path, "/redir/"))
+			w.Header().Set("Location", r.URL.Query().Get("to"))
+			w.WriteHeader(code)
+			return
+		}
 		if !websocket.IsWebSocketUpgrade(r) {
 			w.Header().Set("X-Plain", "1")
 			w.Write([]byte("plain:" + r.URL.RequestURI()))
@@ -1307,6 +1315,10 @@ func concreteURL(class, label string, rng *rand.Rand) string {
 		return "ws://evil.example/ws/../../etc/" + t + q
 	case "encoded-path":
 		return "ws://evil.example/ws/a%2Fb%20c/" + t + q
+	case "backend-redirect-301", "backend-redirect-302", "backend-redirect-307", "backend-redirect-308":
+		return "/redir/" + strings.TrimPrefix(class, "backend-redirect-") + q + "&to=" + url.QueryEscape("ws://evil-"+t+".example:9/ws/x")
+	case "backend-redirect-relative":
+		return "/redir/302" + q + "&to=" + url.QueryEscape("//evil-"+t+".example:9/ws/x")
 	}
 	return "/ws/" + t
 }
